@@ -915,6 +915,18 @@ namespace
                     if (!mh[l].empty())
                     {
                         if (hlist_first_entry(hh[l].get(), SItem, hn)->id != mh[l].front()) violate("C01/hlist-entry", "%s: hlist_first_entry of list %d differs from the reference", when, l);
+                        {
+                            // entry-level traversal
+                            std::vector<int> he;
+                            SItem *hp;
+                            int g4 = 0;
+                            hlist_for_each_entry(hp, hh[l].get(), hn)
+                            {
+                                if (++g4 > ni + 2) violate("C01/hlist-cycle", "%s: hlist_for_each_entry on list %d does not end", when, l);
+                                he.push_back(hp->id);
+                            }
+                            if (he != mh[l]) violate("C01/hlist-entry", "%s: hlist_for_each_entry yields %s, reference %s", when, seq(he).c_str(), seq(mh[l]).c_str());
+                        }
                         for (size_t q = 0; q + 1 < mh[l].size(); q++)
                             if (hlist_next_entry(it[mh[l][q]].get(), hn) != it[mh[l][q + 1]].get() || hlist_entry(&it[mh[l][q]]->hn, SItem, hn) != it[mh[l][q]].get())
                                 violate("C01/hlist-entry", "%s: hlist_next_entry after position %zu of list %d differs from the reference", when, q, l);
@@ -1106,6 +1118,54 @@ namespace
                 probe("link_far_into_the_object");
                 // (the lists die before the records)
                 bl.clear();
+            }
+            {
+                // elements with an alignment above that of the links (alignas(16)), sorted inserts through
+                // move_prev(obj, iterator) where the iterator may be end(); two list heads at different offsets modulo 16
+                struct alignas(16) Wide
+                {
+                    long double weight = 0;
+                    int id = 0;
+                    igris::dlist_node lnk;
+                };
+                struct alignas(16) Heads
+                {
+                    igris::dlist<Wide, &Wide::lnk> a;
+                    char pad[8];
+                    igris::dlist<Wide, &Wide::lnk> b;
+                };
+                std::vector<std::unique_ptr<Wide>> ws;
+                std::unique_ptr<Heads> heads(new Heads());
+                std::vector<int> ra, rb;
+                int nw = 3 + nj % 3;
+                for (int i = 0; i < nw; i++)
+                {
+                    ws.emplace_back(new Wide());
+                    ws.back()->id = (i * 7 + nj) % 10;
+                }
+                for (int pass = 0; pass < 2; pass++)
+                {
+                    auto &L = pass ? heads->b : heads->a;
+                    auto &R = pass ? rb : ra;
+                    for (int i = 0; i < nw; i++)
+                    {
+                        Wide &w = *ws[(size_t)i];
+                        int key = w.id;
+                        auto it = std::find_if(L.begin(), L.end(), [&](Wide &x) { return key < x.id; });
+                        L.move_prev(w, it);
+                        R.insert(std::upper_bound(R.begin(), R.end(), key), key);
+                        std::vector<int> got;
+                        int g5 = 0;
+                        for (auto &x : L)
+                        {
+                            if (++g5 > nw + 2) violate("C01/cxx-dlist-cycle", "sorted insert into a list of 16-byte aligned elements: iteration does not end");
+                            got.push_back(x.id);
+                        }
+                        if (got != R || L.size() != R.size()) violate("C01/cxx-dlist-forward", "sorted inserts (move_prev with the iterator find_if returned) into a list of 16-byte aligned elements give %s, reference %s", seq(got).c_str(), seq(R).c_str());
+                    }
+                    L.clear();
+                }
+                probe("over_aligned_elements_sorted_insert");
             }
             if (nj > 1000) probe("population_over_1000");
             if (nj > 1000)
